@@ -3,14 +3,19 @@
 package main
 
 import (
+	"bufio"
 	"context"
+	"encoding/json"
 	"fmt"
+	"strings"
+	"sync"
 	"time"
 
 	"github.com/filecoin-project/go-f3/certexchange"
 	"github.com/filecoin-project/go-f3/certexchange/polling"
 	"github.com/filecoin-project/go-f3/certs"
 	"github.com/filecoin-project/go-f3/internal/clock"
+	logging "github.com/ipfs/go-log/v2"
 )
 
 func init() { runners["C20"] = runC20 }
@@ -196,5 +201,101 @@ func runC20(o *out, r *rng, thorough bool, replay string) {
 		net.close()
 		cancel()
 	}
+	// ---- the real polling loop (Subscriber.run) on a mock clock, no peers: every round makes no progress, so the interval
+	// the loop predicts after round k is a pure function of how it configured its predictor: it must be the k-th value of a
+	// predictor built from (Minimum, Initial, Maximum)PollInterval.  The intervals are read from the loop's own debug log.
+	loops := 4
+	if thorough {
+		loops = 20
+	}
+	for i := 0; i < loops; i++ {
+		mn := pick(r, durs[:3])
+		mx := mn * time.Duration(20+r.intn(200))
+		df := mn*2 + time.Duration(r.i64n(int64(mx/2-mn*2)+1))
+		obs, err := observeRunIntervals(r, mn, df, mx, 6)
+		in := map[string]any{"minimum": mn.String(), "initial": df.String(), "maximum": mx.String()}
+		if err != nil {
+			o.Dist["run-loop-inconclusive"]++
+			continue
+		}
+		p := polling.VerifNewPredictor(mn, df, mx)
+		var want []time.Duration
+		for range obs {
+			want = append(want, p.Update(0))
+		}
+		if fmt.Sprint(obs) != fmt.Sprint(want) {
+			o.violate("the polling cadence starts at the configured initial interval and stays within the configured minimum and maximum", "subscriber-run-predictor-config", in,
+				fmt.Sprintf("intervals predicted by the loop after rounds without progress: %v, a predictor configured (min, initial, max): %v", obs, want))
+		}
+		o.count("subscriber-run-loop", fmt.Sprint(mn, df, mx), true)
+	}
 	o.finish("From F3 Require Import GoInt PredictorGen PredictorRun.")
+}
+
+var runLogMu sync.Mutex
+
+// observeRunIntervals starts the real Subscriber.run with no peers on a mock clock, advances the clock until the loop has
+// completed `want` rounds and returns the intervals it predicted (parsed from its debug log "predicted interval is X").
+func observeRunIntervals(r *rng, mn, df, mx time.Duration, want int) ([]time.Duration, error) {
+	runLogMu.Lock()
+	defer runLogMu.Unlock()
+	ctx, cancel := context.WithCancel(context.Background())
+	defer cancel()
+	ctx, mock := clock.WithMockClock(ctx)
+	g := newCertGen(r, 4, 0)
+	net := newCxNet(ctx, 0, g.table, nil)
+	defer net.close()
+	cstore, _ := newMemStore(ctx, 0, g.table)
+	sub := &polling.Subscriber{
+		Client:              certexchange.Client{Host: net.client, NetworkName: verifNet, RequestTimeout: 5 * time.Second},
+		Store:               cstore,
+		SignatureVerifier:   g.backend,
+		MinimumPollInterval: mn, MaximumPollInterval: mx, InitialPollInterval: df,
+	}
+	must(sub.VerifInit(ctx))
+	pr := logging.NewPipeReader(logging.PipeFormat(logging.JSONOutput), logging.PipeLevel(logging.LevelDebug))
+	defer pr.Close()
+	_ = logging.SetLogLevel("f3/certexchange", "debug")
+	defer func() { _ = logging.SetLogLevel("f3/certexchange", "error") }()
+	lines := make(chan time.Duration, 64)
+	go func() {
+		sc := bufio.NewScanner(pr)
+		sc.Buffer(make([]byte, 1<<20), 1<<20)
+		for sc.Scan() {
+			var rec struct {
+				Msg string `json:"msg"`
+			}
+			if json.Unmarshal(sc.Bytes(), &rec) != nil {
+				continue
+			}
+			const pfx = "predicted interval is "
+			if !strings.HasPrefix(rec.Msg, pfx) {
+				continue
+			}
+			rest := rec.Msg[len(pfx):]
+			if k := strings.Index(rest, " ("); k > 0 {
+				if d, err := time.ParseDuration(rest[:k]); err == nil {
+					lines <- d
+				}
+			}
+		}
+	}()
+	done := make(chan struct{})
+	go func() { _ = sub.VerifRun(ctx); close(done) }()
+	var obs []time.Duration
+	deadline := time.Now().Add(8 * time.Second)
+	for len(obs) < want && time.Now().Before(deadline) {
+		mock.Add(mx)
+		select {
+		case d := <-lines:
+			obs = append(obs, d)
+		case <-time.After(20 * time.Millisecond):
+		}
+	}
+	cancel()
+	<-done
+	if len(obs) < want {
+		return obs, fmt.Errorf("only %d of %d rounds observed", len(obs), want)
+	}
+	return obs, nil
 }
